@@ -23,7 +23,7 @@ def bits (inv : Bool) (l : List Bool) : String :=
 
 def parseFlags (s : String) : Fixes :=
   let fs := s.splitOn ","
-  { f1 := fs.contains "f1", f25 := fs.contains "f25" }
+  { f1 := fs.contains "f1", f25 := fs.contains "f25", f186 := fs.contains "f186" }
 
 def handle (op : String) (args : List String) : String :=
   match op, args with
